@@ -409,7 +409,7 @@ class HistoryGen:
         kinds = ["add_in_eom", "addeom_outside", "target_global", "add_dmm", "adddmm_nondmm",
                  "short_delay", "neg_delay", "long_delay", "bad_channel", "align_dup", "align_one",
                  "eomon_noeom", "eomoff_outside", "shift_nobasis", "declare_again", "big_target",
-                 "over_amp", "over_det", "bad_proto", "unknown_qubit"]
+                 "over_amp", "over_det", "bad_proto", "unknown_qubit", "nonfinite"]
         k = r.choice(kinds)
         n = self.pick(allow_bad=False)
         c = self.cfg_of(n) or self.spec["channels"][0]
@@ -474,6 +474,16 @@ class HistoryGen:
             d = p["amp"][1] if p["amp"][0] != "custom" else len(p["amp"][1])
             p["amp"] = ["const", d, 1.0]
             p["det"] = ["const", d, -(c.get("max_abs_detuning") or 1000.0) * 1.5]
+            return dict(k="add", ch=n, pulse=p, proto="min-delay")
+        if k == "nonfinite" and not (t.declared.get(n) or {}).get("dmm"):
+            d = max(c.get("min_duration", 1), 4) * c.get("clock_period", 1)
+            bad = r.choice(["nan", "inf", "ramp1"])
+            if bad == "ramp1" and c.get("min_duration", 1) == 1 and c.get("clock_period", 1) == 1:
+                return dict(k="add", ch=n, pulse=dict(amp=["ramp", 1, 1.0, 2.0], det=["const", 1, 0.0], phase=0.0, post=0.0), proto="min-delay")
+            vals = [1.0] * d
+            vals[r.randrange(d)] = float("nan") if bad != "inf" else float("inf")
+            wf = ["custom", vals]
+            p = dict(amp=wf, det=["const", d, 0.0], phase=0.0, post=0.0) if r.random() < 0.5 else dict(amp=["const", d, 1.0], det=wf, phase=0.0, post=0.0)
             return dict(k="add", ch=n, pulse=p, proto="min-delay")
         if k == "bad_proto":
             return dict(k="add", ch=n, pulse=self.pulse(c), proto="bogus")
